@@ -67,6 +67,8 @@ VERIF_MAIN {
 #if DMODE == 3
   ASSERT(out[6] == live, "C06 size() equals the number of live keys");
   ASSERT((out[7] != 0) == (live == 0), "C06 empty() iff no live key");
+#endif
+#if DMODE == 3 || DMODE == 6
   { unsigned long base = 10 + 2 * MAXOUT; int idx = 0; unsigned long cnt = 0;
     for (int k = 0; k <= KMAX; k++) if (present[k] && k >= q[2] && k <= q[3]) cnt++;
     ASSERT(out[base] == cnt, "C06 range(lo,hi) returns exactly the live pairs with lo <= key <= hi");
